@@ -31,7 +31,7 @@ Theorem C07_form_decides_sign : forall name z c, own_domain name = false ->
 Proof. exact form_decides_sign. Qed.
 (* enumerated attributes as the matching family of named constants *)
 Theorem C07_enumerated_in_family : forall name r c z, member name enumerated = true -> uval r = Some z ->
-  (forall b, r <> RBlock b) -> at_value name r c = ACst z (AFam name).
+  (forall big b, r <> RBlock big b) -> at_value name r c = ACst z (AFam name).
 Proof. exact enumerated_in_family. Qed.
 (* strings, references, flags, addresses *)
 Theorem C07_plain_classes : forall name c,
@@ -93,7 +93,15 @@ Example C07_type_context_nonvacuous :
   var_ctx 5 ts (Some 10%N) = Some (TEnc 7) /\ var_ctx 5 ts (Some 30%N) = Some (TEnc 7) /\ var_ctx 5 ts None = Some TNoInfo.
 Proof. vm_compute. auto. Qed.
 
+(* block-form constants are read in the byte order of the file *)
+Theorem C07_block_constant_byte_order : forall b enc, encoding_value (RBlock true b) enc = encoding_value (RBlock false (rev b)) enc.
+Proof. exact block_byte_order. Qed.
+Example C07_big_endian_block : at_value AT_const_value (RBlock true [254; 212]%N) (TEnc ATE_signed) = ACst (-300) ADec
+                            /\ at_value AT_const_value (RBlock false [212; 254]%N) (TEnc ATE_signed) = ACst (-300) ADec.
+Proof. vm_compute. auto. Qed.
+
 Print Assumptions C07_sext_twos_complement.
+Print Assumptions C07_block_constant_byte_order.
 Print Assumptions C07_qualifiers_transparent.
 Print Assumptions C07_base_type_gives_its_encoding.
 Print Assumptions C07_pointer_is_pointer.
@@ -115,6 +123,6 @@ Print Assumptions C07_discr_value_is_error.
 Print Assumptions C07_unknown_form_is_error.
 
 Example C07_example : at_value AT_const_value (RData 1 255) (TEnc ATE_signed) = ACst (-1) ADec
-                      /\ at_value AT_const_value (RBlock [255; 255]%N) (TEnc ATE_unsigned) = ACst 65535 ADec
+                      /\ at_value AT_const_value (RBlock false [255; 255]%N) (TEnc ATE_unsigned) = ACst 65535 ADec
                       /\ at_value AT_language (RUdata 12) TNoInfo = ACst 12 (AFam AT_language).
 Proof. vm_compute. auto. Qed.
